@@ -9,6 +9,7 @@ mod exec;
 mod frame;
 mod gen;
 mod known;
+mod procsim;
 mod prop;
 mod props;
 mod rng;
